@@ -1,8 +1,8 @@
 #!/bin/bash
-# usage: seedcheck.sh <id> <pkgdir> <TestName>   -- verifies a seeded change from /var/tmp/seeds/<id>/out and runs ./check on it
+# usage: seedcheck.sh <id> <pkgdir> <TestName>   -- verifies a seeded change from /tmp/seeds/<id>/out and runs ./check on it
 id=$1; pkg=$2; tn=$3
 export GOFLAGS=-mod=mod GOPROXY=off GOSUMDB=off GOTOOLCHAIN=local
-out=/var/tmp/seeds/$id/out; sd=/verif/seeded/$id; mkdir -p $sd
+out=/tmp/seeds/$id/out; sd=/verif/seeded/$id; mkdir -p $sd
 cp $out/patch.diff $out/demo_test.go $sd/ 2>/dev/null
 cd /repo || exit 1
 git diff --quiet || { echo "repo dirty"; exit 1; }
